@@ -6,10 +6,10 @@ wt=$(mktemp -d /tmp/seedtry-XXXXXX); rmdir $wt
 git -C /repo worktree add -q $wt HEAD || exit 2
 if ! git -C $wt apply $patch; then echo "patch does not apply"; git -C /repo worktree remove --force $wt; exit 2; fi
 for p in "$@"; do
-  res=$(cd /verif && VERIF_REPO=$wt VERIF_OUT=/tmp/seedtry-out timeout 1500 ./check $p 2>/dev/null)
+  res=$(cd /verif && VERIF_REPO=$wt VERIF_OUT=$wt.out timeout 1500 ./check $p 2>/dev/null)
   nv=$(echo "$res" | grep -c "^VIOLATION")
   ok=$(echo "$res" | grep "^OK" | cut -c1-80)
   first=$(echo "$res" | grep "^VIOLATION" | head -1 | cut -c1-120)
   echo "$p: violations=$nv $ok $first"
 done
-git -C /repo worktree remove --force $wt
+git -C /repo worktree remove --force $wt; rm -rf $wt.out
